@@ -100,16 +100,18 @@ theorem loop_consumes_level (k : Nat) :
 
 /-- `return` leaves only the innermost function: a function call never yields a `Return` divert,
     and when its body returns with a status the caller goes on with exactly that status. -/
-theorem return_innermost (fuel : Nat) (s : St) (name : Name) (body : Cmd)
+theorem return_innermost (fuel : Nat) (s : St) (name : Name) (nargs : Nat) (body : Cmd)
     (hc : classify s name = .function body) :
-    (∀ e, (execCmd (fuel+1) s (.call name)).2 ≠ .break_ (.return_ e)) ∧
-    (∀ e, (execCmd fuel s body).2 = .break_ (.return_ (some e)) →
-      (execCmd (fuel+1) s (.call name)).1.status = e ∧
-      (execCmd (fuel+1) s (.call name)).2 = (execCmd (fuel+1) s (.call name)).1.applyErrexit) := by
+    (∀ e, (execCmd (fuel+1) s (.call name nargs)).2 ≠ .break_ (.return_ e)) ∧
+    (∀ e, (execCmd fuel { s with params := nargs } body).2 = .break_ (.return_ (some e)) →
+      (execCmd (fuel+1) s (.call name nargs)).1.status = e ∧
+      (execCmd (fuel+1) s (.call name nargs)).2 = (execCmd (fuel+1) s (.call name nargs)).1.applyErrexit) ∧
+    -- the caller's positional parameters are what they were, whatever the body did
+    (execCmd (fuel+1) s (.call name nargs)).1.params = s.params := by
   simp only [execCmd, hc]
-  generalize execCmd fuel s body = x
+  generalize execCmd fuel { s with params := nargs } body = x
   obtain ⟨s1, r⟩ := x
-  constructor
+  refine ⟨?_, ?_, ?_⟩
   · intro e
     cases r with
     | continue_ => simp [finishSimple, St.applyErrexit]; split <;> simp
@@ -122,6 +124,13 @@ theorem return_innermost (fuel : Nat) (s : St) (name : Name) (body : Cmd)
     simp only at hr
     subst hr
     simp [finishSimple]
+  · cases r with
+    | continue_ => simp [finishSimple]
+    | outOfFuel => simp [finishSimple]
+    | break_ d =>
+      cases d with
+      | return_ e' => cases e' <;> simp [finishSimple]
+      | _ => simp [finishSimple]
 
 /-! ### ★ and-or lists -/
 
@@ -255,6 +264,23 @@ theorem absent_command_status (fuel : Nat) (s : St) (w r a : Option Nat) :
       | none, none, none => 0 := by
   cases a <;> cases r <;> cases w <;> simp [execCmd, finishSimple] <;> split <;> rfl
 
+/-- `for v do …` iterates once per positional parameter of the current context: it is the loop over
+    that many words -/
+theorem for_pos_is_for_params (fuel : Nat) (s : St) (body : List Item) :
+    execCmd (fuel+1) s (.forPos body) = execCmd (fuel+1) s (.forLoop s.params body) := by
+  simp [execCmd]
+
+/-- a function made read-only is never replaced: the definition fails with status 2 and the function
+    table is what it was; any other definition succeeds with status 0 -/
+theorem readonly_function_stays (fuel : Nat) (s : St) (name : Name) (body : Cmd) :
+    (s.roFuncs.contains name = true →
+      (execCmd (fuel+1) s (.fundef name body)).1.funcs = s.funcs ∧
+      (execCmd (fuel+1) s (.fundef name body)).1.status = 2) ∧
+    (s.roFuncs.contains name = false →
+      (execCmd (fuel+1) s (.fundef name body)).1.funcs = defineFn s.funcs name body ∧
+      (execCmd (fuel+1) s (.fundef name body)).1.status = 0) := by
+  constructor <;> intro h <;> simp only [execCmd, h, finishSimple, Bool.false_eq_true, ite_true, ite_false] <;> simp
+
 /-! ### the command search order -/
 
 /-- special built-in, then function, then other built-in: a function named like the special
@@ -325,7 +351,7 @@ example :
     let body : Cmd := .group [.mk (.mk false [.probe 1]) [], .mk (.mk false [.ret (some 7)]) [], .mk (.mk false [.probe 2]) []]
     let s : St := { funcs := [(.f 0, body)] }
     (execCmd 20 s body).2 = .break_ (.return_ (some 7)) ∧
-    (execCmd 21 s (.call (.f 0))).1.status = 7 ∧ (execCmd 21 s (.call (.f 0))).1.trace = [(1, 0)] := by
+    (execCmd 21 s (.call (.f 0) 0)).1.status = 7 ∧ (execCmd 21 s (.call (.f 0) 0)).1.trace = [(1, 0)] := by
   decide
 
 /-- `break 2` inside two nested loops inside a condition leaves both (`Within` is not vacuous) -/
